@@ -88,42 +88,18 @@ class ElementBase(abc.ABC):
         return None
 
     def transform(self: ElementBaseT, transforms: Sequence[tr.Transformation]) -> ElementBaseT:
+        """Applies a list of transformations, one after another; each is the same as the respective
+        method call (translate, rotate, ...) on this entity, including entities that handle some of them specially"""
         for t7m in transforms:
-            # remember center or it will change during transformation
-            # of each self.part
-            center = self.center
-
-            for part in self.parts:
-                if isinstance(t7m, tr.Translation):
-                    part.translate(t7m.displacement)
-                    continue
-
-                if isinstance(t7m, tr.Rotation):
-                    origin = t7m.origin
-                    if origin is None:
-                        origin = center
-
-                    part.rotate(t7m.angle, t7m.axis, origin=origin)
-                    continue
-
-                if isinstance(t7m, tr.Scaling):
-                    origin = t7m.origin
-                    if origin is None:
-                        origin = center
-
-                    part.scale(t7m.ratio, origin=origin)
-                    continue
-
-                if isinstance(t7m, tr.Mirror):
-                    origin = t7m.origin
-                    if origin is None:
-                        origin = [0, 0, 0]
-
-                    part.mirror(t7m.normal, origin=origin)
-                    continue
-
-                if isinstance(t7m, tr.Shear):
-                    part.shear(t7m.normal, t7m.origin, t7m.direction, t7m.angle)
-                    continue
+            if isinstance(t7m, tr.Translation):
+                self.translate(t7m.displacement)
+            elif isinstance(t7m, tr.Rotation):
+                self.rotate(t7m.angle, t7m.axis, t7m.origin)
+            elif isinstance(t7m, tr.Scaling):
+                self.scale(t7m.ratio, t7m.origin)
+            elif isinstance(t7m, tr.Mirror):
+                self.mirror(t7m.normal, t7m.origin)
+            elif isinstance(t7m, tr.Shear):
+                self.shear(t7m.normal, t7m.origin, t7m.direction, t7m.angle)
 
         return self
